@@ -26,3 +26,5 @@ def run(rep):
     ms.rule_inst(rep, "C17.inst")
     ms.rule_parse_resets(rep, "C17.reset")
     mr.rule_reset(rep, "C17.builderreset", classes=("gherkin.ast_builder.AstBuilder",))
+    # no hidden state: what the property promises for one use must hold for every later use as well
+    ms.rule_stateless(rep, "C17")
